@@ -17,6 +17,10 @@ func init() {
 		Level:       "held on every executed case: complete sweep of all sequences up to length 5 (thorough 6) of the eight operations over 3 keys for capacities 1..3 and up to length 4 (5) over 5 keys for capacities 3..4, plus seeded random long sequences with capacities up to 16; every return value compared with a recency-list model, Count/GetYoungest after every step, final drain by RemoveOldest",
 		Technique:   "reference-model trace monitor (recency-list model) over systematic small-scope sweep + seeded random sequences",
 		Assumptions: []string{"the recency-list model (refresh on Add, Get, GetOldest only) and the generators are trusted", "LRUCache is single-threaded by contract"}})
+	reg(&propCfg{ID: "C09", Pkg: "./props/c09", Variants: simple(false),
+		Level:       "held on every executed case: complete sweep of all Put sequences of up to 5 keys of length 1..3 over {a,b} (and 4 keys of length 1..2 over {a,b,c}; thorough: 6 keys, key length 4, 3 letters) probed with every string of length <= 4 for Get/Contains/LongestPrefix/StartsWith plus Keys, and seeded random key sets with shared prefixes, nested keys and bytes 0x00/>=0x80",
+		Technique:   "reference-model trace monitor (map + sorted key list) over systematic small-scope sweep + seeded random key sets",
+		Assumptions: []string{"the map model and the generators are trusted", "the trie is backed by queue.Queue as in the package's own example", "Put with an empty key is outside the property's domain and not exercised", "single goroutine; concurrency is C01/C02"}})
 	reg(&propCfg{ID: "C04", Pkg: "./props/c04", Variants: simple(false),
 		Technique:   "reference-model trace monitor (map model) over systematic small-scope sweep + seeded random sequences",
 		Assumptions: []string{"the map model and the generators are trusted", "single goroutine; concurrency is C01/C02"}})
